@@ -114,6 +114,12 @@ fn signals_stream(seed: u64, n: usize, cases: &mut impl Write, outs: &mut impl W
         if let Some(want) = expect.get(p) {
             match &got { Ok(s) if s.to_nix().map(|x| x as i32) == Some(*want) => {}, other => oracle = format!("spelling {p:?} of signal {want} parses to {other:?}") }
         }
+        // "apart from the documented Windows control names such as STOP, which take precedence over the unix short name": the control names of
+        // the rustdoc of `from_windows_str`, transcribed by hand, in any letter case — through FromStr they mean what the documentation says
+        let documented: Option<Signal> = match p.to_ascii_uppercase().as_str() {
+            "CTRL-CLOSE" | "CTRL+CLOSE" | "CLOSE" => Some(Signal::Hangup), "CTRL-BREAK" | "CTRL+BREAK" | "BREAK" => Some(Signal::Terminate),
+            "CTRL-C" | "CTRL+C" | "C" => Some(Signal::Interrupt), "STOP" | "FORCE-STOP" | "KILL" | "SIGKILL" => Some(Signal::ForceStop), _ => None };
+        if let Some(want) = documented { if got.as_ref().ok() != Some(&want) { oracle = format!("control name {p:?} is documented as {want:?} and takes precedence, but parses to {got:?}"); } }
         if let Ok(s) = got { // display form parses back to the same OS signal
             if s.to_nix().is_some() { match Signal::from_str(&s.to_string()) { Ok(b) if b.to_nix() == s.to_nix() => {}, other => oracle = format!("display {} of {s:?} parses to {other:?}", s) } }
         }
